@@ -785,6 +785,8 @@ class Executor:
             return Enum(v.d, pay)
         if k == 'i':
             idx = step[1]
+            if hasattr(v, 'set_index_step'):
+                return v.set_index_step(idx, newv)
             elems = list(self.elems_of(v))
             if isinstance(idx, CI):
                 elems[idx.v] = newv
